@@ -65,7 +65,11 @@ impl Parse for Input {
             disallow_token(auto_token)?;
             Ok(Input::Mod(parse_mod(attrs, vis, input)?))
         } else {
-            let fn_sig: syn::Signature = input.parse()?;
+            let mut fn_sig: syn::Signature = input.parse()?;
+            if unsafety.is_some() {
+                // a leading `unsafe` was consumed by the trait look-ahead above
+                fn_sig.unsafety = unsafety;
+            }
             let fn_body = input.parse()?;
 
             Ok(Input::Fn(InputFn {
